@@ -122,6 +122,19 @@ CLAIMS = {
              'sweeps and the complete outcome tree of the REAL code (ScriptedRng DFS, ~25k leaves quick) compared with the model\'s leaves -- and the '
              'well-formedness oracle on every real outcome.  Shipped nine-room / memory-room / 9x9 sets are too large for the kernel in the quick tier.',
         design='8/C13', note=TB + ' np.linspace results are inputs of the model (oracle), recomputed by the harness exactly as the code does.'),
+    'C14': dict(
+        level='proof',
+        technique='Coq: plan lemma (walk => action sequence of the real move/turn dynamics) + verified breadth-first check + kernel evaluation over COMPLETE outcome trees for walk-only parameter sets; exhaustive search over histories of the real step function for the rest; known findings K1/K2',
+        text='Coq theorems (Props/C14.v): walk_plan -- a 4-connected walk over enterable cells is realised by one move action per step under '
+             'chain [move_agent; turn_agent] for any heading, visiting exactly the walk; bfsP soundness; hence can_walk_to = true yields a plan to the goal '
+             'that never enters a blocking or terminating cell; by kernel evaluation of `leaves`: EVERY initial state of 20 walk-only parameter sets '
+             '(shipped crossing/empty/memory/four-rooms-7x7 from the regenerated Gen/Configs.v, and small ones) is winnable; K1 has a kernel-checked '
+             'witness.  These are proofs for the listed finite instances.  Everything else (key-door: fetch key, unlock; teleport; moving obstacles with all '
+             'random outcomes; larger rooms) is decided by best-first search over ALL histories of the REAL step function (all actions x all random '
+             'outcomes via ScriptedRng) from the complete reset outcome tree when small, seeds otherwise; an exhausted search is an unwinnable state. '
+             'Two genuine findings are recorded in known_findings.json (K1 memory_rooms, K2 dense dynamic_obstacles) with class predicates; any other '
+             'unwinnable state fails the check.',
+        design='8/C14', note=TB + ' "The environment\'s own dynamics" of a reset function = the dynamics the shipped configurations pair it with (table computed at run time).'),
     'C18': dict(
         level='proof',
         technique='Coq proof over unbounded Z (group laws, linear isometric action, transform group, area image, grid rotation) + regenerated tables + differential check',
